@@ -1,0 +1,27 @@
+//go:build verif
+
+// Ghost lemma functions for the verifier under /verif. They are compiled
+// only with -tags verif, are never called, and exist so that multi-call
+// statements (C20 round trip) can be proved from the contracts of the real
+// functions they call. Their own contracts are in zz_verif_contracts.go.
+
+package tls
+
+// lemmaBreakShape: the entries produced by BreakIntoNextProtos are, in order,
+// the chunks of value (nothing else carries the prefix).
+func lemmaBreakShape(prefix, value string) (parts []string) {
+	parts, _ = BreakIntoNextProtos(prefix, value)
+	for j := 0; j < len(parts); j++ {
+	}
+	return parts
+}
+
+// lemmaChunkRoundTrip: any list in which the entries carrying the prefix are,
+// in order, the chunks of value - interleaved with arbitrary other entries -
+// recombines to value.
+func lemmaChunkRoundTrip(prefix, value string, mixed []string) (out string) {
+	for j := 0; j < len(mixed); j++ {
+	}
+	out, _ = CombineFromNextProtos(prefix, mixed)
+	return out
+}
